@@ -760,6 +760,14 @@ func instrLabelOr(in ssa.Instruction) string {
 }
 
 var c04Mutants = []Mutant{
+	// --- the repository's own test suite stays green under these (verified in a scratch copy) ---
+	{Name: "onmounted-error-wrapped", File: "copy.go",
+		Old: "\t\t\t\tif err := opts.OnMounted(ctx, desc); err != nil {\n\t\t\t\t\treturn err\n\t\t\t\t}",
+		New: "\t\t\t\tif err := opts.OnMounted(ctx, desc); err != nil {\n\t\t\t\t\treturn fmt.Errorf(\"on mounted: %w\", err)\n\t\t\t\t}", Expect: "C04.R4.callback-sequencing|~.mountOrCopyNode|OnMounted-error-unchanged"},
+	{Name: "postcopy-only-for-manifests", File: "copy.go",
+		Old: "\tif opts.PostCopy != nil {\n\t\treturn opts.PostCopy(ctx, desc)\n\t}\n\treturn nil\n}\n\n// copyCachedNodeWithReference",
+		New: "\tif opts.PostCopy != nil && (descriptor.IsManifest(desc) || desc.Size > 0) {\n\t\treturn opts.PostCopy(ctx, desc)\n\t}\n\treturn nil\n}\n\n// copyCachedNodeWithReference", Expect: "C04.R4.callback-sequencing|~.copyNode|PostCopy-after-successful-transfer"},
+	// --- below: see the report for which of these the repository's tests also catch ---
 	{Name: "end-double-release", File: "internal/syncutil/limit.go",
 		Old: "\tif lr == nil || lr.ended {\n\t\treturn\n\t}\n\tlr.limiter.Release(1)", New: "\tif lr == nil {\n\t\treturn\n\t}\n\tlr.limiter.Release(1)", Expect: "C04.R1.permit-typestate|(*~/internal/syncutil.LimitedRegion).End|release-only-while-held"},
 	{Name: "end-forgets-ended", File: "internal/syncutil/limit.go",
@@ -789,8 +797,6 @@ var c04Mutants = []Mutant{
 	{Name: "postcopy-before-transfer", File: "copy.go",
 		Old: "\tif err := doCopyNode(ctx, src, dst, desc); err != nil {\n\t\treturn err\n\t}\n\n\tif opts.PostCopy != nil {\n\t\treturn opts.PostCopy(ctx, desc)\n\t}\n\treturn nil",
 		New: "\tif opts.PostCopy != nil {\n\t\tif err := opts.PostCopy(ctx, desc); err != nil {\n\t\t\treturn err\n\t\t}\n\t}\n\treturn doCopyNode(ctx, src, dst, desc)", Expect: "C04.R4.callback-sequencing|~.copyNode"},
-	{Name: "postcopy-skipped-for-cached", File: "copy.go",
-		Old: "\tif opts.PostCopy != nil {\n\t\treturn opts.PostCopy(ctx, desc)\n\t}\n\treturn nil\n}\n\n// copyCachedNodeWithReference", New: "\tif opts.PostCopy != nil && opts.PreCopy != nil {\n\t\treturn opts.PostCopy(ctx, desc)\n\t}\n\treturn nil\n}\n\n// copyCachedNodeWithReference", Expect: "C04.R4.callback-sequencing|~.copyNode|PostCopy-after-successful-transfer"},
 	{Name: "precopy-error-wrapped", File: "copy.go",
 		Old: "\t\t\tif err == SkipNode {\n\t\t\t\treturn nil\n\t\t\t}\n\t\t\treturn err", New: "\t\t\tif err == SkipNode {\n\t\t\t\treturn nil\n\t\t\t}\n\t\t\treturn fmt.Errorf(\"pre-copy: %v\", err)", Expect: "C04.R4.callback-sequencing|~.copyNode|PreCopy-error-unchanged"},
 	{Name: "skipnode-still-copies", File: "copy.go",
